@@ -149,6 +149,7 @@ pub enum CallKind {
     Ping,
     StepLocal(MessageType),
     ProposeBatch(Vec<Option<CcSpec>>),
+    Fetched,
 }
 
 impl CallKind {
@@ -176,6 +177,7 @@ impl CallKind {
             CallKind::Ping => "ping",
             CallKind::StepLocal(_) => "step(local)",
             CallKind::ProposeBatch(_) => "step(MsgPropose batch)",
+            CallKind::Fetched => "on_entries_fetched",
         }
     }
 }
@@ -221,6 +223,8 @@ pub struct CaseStats {
     pub net_overflow: u32,
     pub crashes: u32,
     pub crashes_lost_data: u32,
+    pub fetches_completed: u32,
+    pub fetches_sent: u32,
     pub restarts: u32,
     pub proposals_ok: u32,
     pub proposals_dropped: u32,
@@ -393,6 +397,8 @@ impl World {
             if core.hs.commit < core.app.applied {
                 core.hs.commit = core.app.applied;
             }
+            core.fetch_unavailable = 0;
+            core.pending_fetch.clear();
             n.cache = SimStore::new(core);
             n.batches.clear();
             n.to_apply.clear();
@@ -1131,6 +1137,11 @@ impl World {
         n.to_apply.clear();
         n.pending_meta.clear();
         n.cache = SimStore::new(n.disk.clone());
+        {
+            let mut c = n.cache.0.borrow_mut();
+            c.fetch_unavailable = 0;
+            c.pending_fetch.clear();
+        }
     }
 
     // ------------------------------------------------------------------ ops
@@ -1301,6 +1312,29 @@ impl World {
         }
         self.mon.after_op(&self.nodes, self.op_index);
         self.op_index += 1;
+    }
+
+    /// The application's background fetch finished: every recorded context is handed back.
+    pub(crate) fn complete_fetches(&mut self, ni: usize) -> bool {
+        if !self.nodes[ni].up() {
+            return false;
+        }
+        let ctxs: Vec<raft::GetEntriesContext> = std::mem::take(&mut self.nodes[ni].cache.0.borrow_mut().pending_fetch);
+        if ctxs.is_empty() {
+            return false;
+        }
+        for c in ctxs {
+            if self.dead || !self.nodes[ni].up() {
+                break;
+            }
+            self.stats.fetches_completed += 1;
+            let before = self.nodes[ni].rn.as_ref().map_or(0, |r| r.raft.msgs.len());
+            self.call(ni, CallKind::Fetched, move |rn| rn.on_entries_fetched(c));
+            if self.nodes[ni].rn.as_ref().map_or(0, |r| r.raft.msgs.len()) > before {
+                self.stats.fetches_sent += 1;
+            }
+        }
+        true
     }
 
     fn idle_fallback(&mut self) -> bool {
@@ -1710,6 +1744,19 @@ impl World {
                 self.call(ni, CallKind::Ping, |rn| rn.ping());
                 true
             }
+            Op::LogFetch { n, refuse } => {
+                if *refuse > 0 {
+                    let ni = self.pick_node(*n, |x| x.rn.as_ref().map_or(false, |r| r.raft.state == StateRole::Leader));
+                    if !self.nodes[ni].up() {
+                        return false;
+                    }
+                    self.nodes[ni].cache.0.borrow_mut().fetch_unavailable = *refuse;
+                    true
+                } else {
+                    let ni = self.pick_node(*n, |x| x.up() && !x.cache.0.borrow().pending_fetch.is_empty());
+                    self.complete_fetches(ni)
+                }
+            }
         }
     }
 
@@ -1931,6 +1978,8 @@ impl World {
                 rn.set_priority(pri);
             });
             self.nodes[ni].cache.0.borrow_mut().snap_unavailable = false;
+            self.nodes[ni].cache.0.borrow_mut().fetch_unavailable = 0;
+            self.complete_fetches(ni);
         }
         let et = self.sc.election_tick;
         let bound = 12 * 2 * et;
